@@ -133,6 +133,9 @@ class Env:
         # the callback runs in a stepped thread and can be preempted before any of its lines (including the os.write line), which
         # subsumes "the write lands later than the append"
         self.allow_write_deferral = False
+        self.ts_class = None
+        self.delivering = 0
+        self.registered_mark = None  # (request number, selects completed) when a further trigger was registered
 
     def bytes_read(self, data):
         self.model.fd_read += len(data)
@@ -164,12 +167,15 @@ class Env:
     def deliver(self, ev, kernel, during=None):
         """Runs one environment event. A trigger callback that raises is the library's failure (it runs in 'another thread'),
         never an exception of the main thread's request."""
+        self.delivering += 1
         try:
             self._deliver(ev, kernel, during)
         except (vk.HarnessError, vk.Deadlock, KeyboardInterrupt):
             raise
         except Exception as ex:  # noqa
             self.callback_failures.append(("C08:trigger_callback_raises:" + type(ex).__name__, "%r while delivering %r" % (ex, ev)))
+        finally:
+            self.delivering -= 1
 
     def _deliver(self, ev, kernel, during=None):
         if ev[0] == "deferred":
@@ -228,6 +234,27 @@ class Env:
             # request's last wait has returned races with the request's decision and is exempt from the ordering clause
             m.sched.append((it[2], it[1], (m.request_no if kernel.in_request else -1, kernel.selects_done)))
             self.cbs["sched"](it[2])
+        elif kind == "ts_register":
+            # another thread (or a signal handler) registers a further thread-safe trigger while the program runs
+            self.cbs["ts_new"] = self.inp.threadsafe_event_trigger(self.ts_class)
+            self.registered_mark = (m.request_no if kernel.in_request else -1, kernel.selects_done)
+        elif kind == "ts_fire_new":
+            while self.paused_calls:
+                self._deliver(("resume", 0), kernel)
+            m.ts.append(it[1])
+            self.in_threadsafe_callback = True
+            try:
+                call = SteppedCall(self.cbs["ts_new"], {"tag": it[1]}, self.chooser, it[1])
+                call.start()
+            finally:
+                self.in_threadsafe_callback = False
+            if call.paused:
+                self.paused_calls.append(call)
+            else:
+                if call.error is not None:
+                    raise call.error
+                m.ts_completed += 1
+                m.ts_marks.append((it[1], m.request_no if kernel.in_request else -1, kernel.selects_done))
         elif kind == "sigint":
             m.sigints += 1
             kernel.deliver_sigint()
@@ -246,7 +273,12 @@ def make_events():
             return "<Tag %s>" % self.tag
 
     class TsTag(Tag):
-        pass
+        def __bool__(self):
+            # an event object may well be falsy (a container-like event that is empty, say): tags starting with "f" are
+            return not str(self.tag).startswith("f")
+
+        def __len__(self):
+            return 0 if str(self.tag).startswith("f") else 1
 
     class Sched(events.ScheduledEvent):
         def __repr__(self):
@@ -294,6 +326,7 @@ def run_scenario(scn, chooser):
         env.inp = inp
         inp.__enter__()
         env.cbs = {"plain": inp.event_trigger(Tag), "ts": inp.threadsafe_event_trigger(TsTag), "sched": inp.scheduled_event_trigger(Sched)}
+        env.ts_class = TsTag
         keys_out = []
 
         def request(timeout, phase):
@@ -309,7 +342,9 @@ def run_scenario(scn, chooser):
                 r = inp.send(timeout)
             except vk.Deadlock:
                 kernel.in_request = False
-                if m.ts or m.sigints or m.pending_bytes():
+                late = env.registered_mark is not None and env.registered_mark == (m.request_no, kernel.selects_done)
+                pend_ts = [t_ for t_ in m.ts if not (late and str(t_).startswith("n"))]
+                if pend_ts or m.sigints or m.pending_bytes():
                     fails.append(("C08:lost_wakeup_blocked_forever_with_something_pending", "blocked forever; pending ts=%r sigints=%d bytes=%d" % (m.ts, m.sigints, m.pending_bytes())))
                 obs.append("blocked_forever")
                 return "stop"
@@ -340,7 +375,12 @@ def run_scenario(scn, chooser):
                     fails.append(("C08:none_from_untimed_request", "send(None) returned None"))
                 elif not sched_pending_start and not m.sched and end - start < timeout - 1e-4:
                     fails.append(("C08:none_before_timeout", "request(%r) returned None after %.6f s" % (timeout, end - start)))
-                elif inp.queued_interrupting_events and not env.paused_calls and any(tg in m.ts and rn == m.request_no and sd < kernel.selects_done for tg, rn, sd in m.ts_marks):
+                elif inp.queued_interrupting_events and not env.paused_calls and any(
+                    tg in m.ts and rn == m.request_no and sd < kernel.selects_done
+                    # an event of a trigger that was registered while this very wait was already in progress cannot wake it
+                    and not (str(tg).startswith("n") and env.registered_mark is not None and env.registered_mark[0] == m.request_no and env.registered_mark[1] >= sd)
+                    for tg, rn, sd in m.ts_marks
+                ):
                     fails.append(("C08:request_slept_through_a_completed_threadsafe_callback", "request(%r) returned None although a thread-safe callback completed (event appended, wake-up due) before its last wait returned; queue %r" % (timeout, inp.queued_interrupting_events)))
                 return None
             if isinstance(r, bytes):
@@ -511,7 +551,7 @@ def family_bytes(thorough):
 
 
 POOL = [
-    ("event", "e1"), ("event", "e2"), ("ts", "t1"), ("ts", "t2"),
+    ("event", "e1"), ("event", "e2"), ("ts", "t1"), ("ts", "t2"), ("ts", "f3"),
     ("sched", "s_soon", T0 + 2.0), ("sched", "s_soon2", T0 + 2.0), ("sched", "s_past", T0 - 1.0), ("sched", "s_late", T0 + 8.0), ("sched", "s_mid", T0 + 3.0),
     ("sigint",), ("bytes", b"a"), ("bytes", b"\x1b[A"), ("unget", b"b"),
 ]
@@ -550,8 +590,15 @@ def family_events(thorough):
 def family_three_requests(thorough):
     """Three requests: earlier requests consume the events, so that late wake-ups (a deferred write, a left-over signal byte) reach a
     later *timed* request as spurious wake-ups."""
-    pairs = [(("ts", "t1"), ("ts", "t2")), (("ts", "t1"), ("sigint",)), (("sigint",), ("sigint",)), (("ts", "t1"), ("event", "e1")),
+    pairs = [(("ts", "t1"), ("ts", "t2")), (("ts", "f1"), ("ts", "f2")), (("ts", "f1"), ("event", "e1")), (("ts", "t1"), ("sigint",)), (("sigint",), ("sigint",)), (("ts", "t1"), ("event", "e1")),
              (("ts", "t1"), ("bytes", b"a")), (("sigint",), ("sched", "s_soon", T0 + 2.0)), (("ts", "t1"), ("sched", "s_late", T0 + 8.0))]
+    # a further thread-safe trigger is registered while a request may be waiting, an old wake-up byte arrives, then the new
+    # trigger fires: the waiting request has to notice the new descriptor
+    for tp in ((0, 5.0), (0, None), (5.0, 5.0)):
+        yield {"paste_threshold": 8, "sigint_event": False, "family": "three_requests",
+               "script": [("ts", "t1"), ("req", tp[0]), ("req", tp[1]), ("ts_register",), ("ts_fire_new", "n1"), ("req", 0)]}
+        yield {"paste_threshold": 8, "sigint_event": True, "family": "three_requests",
+               "script": [("sigint",), ("req", tp[0]), ("req", tp[1]), ("ts_register",), ("ts_fire_new", "n1"), ("req", 0)]}
     for a, b in pairs:
         sig = a[0] == "sigint" or b[0] == "sigint"
         for slots in ((0, 0), (0, 1), (1, 1), (0, 2), (1, 2)):
@@ -577,6 +624,13 @@ def family_large(thorough):
     for lead in range(0, 7):  # every alignment of the 7-byte cycle against whatever boundary the implementation has
         units = [b"a"] * lead + [b"\x1b[1;5D", b"x"] * 11000
         yield {"paste_threshold": 8, "sigint_event": False, "script": [("bytes", b"".join(units)), ("req", 0), ("req", 0)], "family": "large_burst", "units": units}
+    # the longest table sequences (7 bytes) at every alignment against the 1 024-byte reads
+    for lead in range(0, 8):
+        units = [b"a"] * lead + [b"\x1b[1;10A", b"x"] * 400
+        yield {"paste_threshold": 8, "sigint_event": False, "script": [("bytes", b"".join(units)), ("req", 0), ("req", 0)], "family": "large_burst", "units": units}
+    # more than 200 000 keypresses in one paste
+    units = [b"a", b"b", b"c"] * 67000
+    yield {"paste_threshold": 8, "sigint_event": False, "script": [("bytes", b"".join(units)), ("req", 0), ("req", 0)], "family": "large_burst", "units": units}
     # escape sequences and characters straddling every 1 024-byte read boundary of a multi-kilobyte paste
     for lead in range(0, 4):
         units = [b"a"] * lead + [b"\x1b[A", d, b"\x1b[15~"] * 400
@@ -621,6 +675,8 @@ def timing_independent(scn):
         if it[0] == "req" and it[1] != 0:
             return False
         if it[0] == "sched" and it[2] >= T0:
+            return False
+        if it[0] in ("ts_register", "ts_fire_new"):
             return False
     return True
 
